@@ -1658,6 +1658,11 @@ func (p *Posix) CompleteMultipartUpload(ctx context.Context, input *s3.CompleteM
 	vEnabled := p.isBucketVersioningEnabled(vStatus)
 
 	d, err := os.Stat(objname)
+	if err == nil && d.IsDir() {
+		// as in PutObject: the directory object "key/" (or the directory
+		// of other keys) is not replaced by the object "key"
+		return nil, s3err.GetAPIError(s3err.ErrExistingObjectIsDirectory)
+	}
 
 	// if the versioninng is enabled first create the file object version.
 	// In a Suspended bucket (as in PutObject) a current version that has a
